@@ -287,7 +287,7 @@ func runC11(rt *rapid.T, st *stats.Collector) {
 	}
 	acquire := func(rt *rapid.T) {
 		if closed {
-			rt.Skip("closed")
+			return // nothing to do in this state (a no-op step; skipping too often makes rapid give up)
 		}
 		ctx, cancel := context.WithTimeout(context.Background(), 30*time.Millisecond)
 		defer cancel()
@@ -313,11 +313,11 @@ func runC11(rt *rapid.T, st *stats.Collector) {
 	do := func(rt *rapid.T) {
 		ls := live()
 		if len(ls) == 0 {
-			rt.Skip("no handle")
+			return // nothing to do in this state (a no-op step; skipping too often makes rapid give up)
 		}
 		h := ls[rapid.IntRange(0, len(ls)-1).Draw(rt, "handle")]
 		if h.dead {
-			rt.Skip("dead handle")
+			return // nothing to do in this state (a no-op step; skipping too often makes rapid give up)
 		}
 		kind := rapid.SampledFrom([]string{"OK", "OK", "EXC", "CUT", "EXCCUT", "HANG", "PING"}).Draw(rt, "do-kind")
 		ctx := context.Background()
@@ -351,7 +351,7 @@ func runC11(rt *rapid.T, st *stats.Collector) {
 		"do2":      do,
 		"release": func(rt *rapid.T) {
 			if len(handles) == 0 {
-				rt.Skip("no handle")
+				return // nothing to do in this state (a no-op step; skipping too often makes rapid give up)
 			}
 			h := handles[rapid.IntRange(0, len(handles)-1).Draw(rt, "handle")]
 			if h.released {
@@ -388,10 +388,10 @@ func runC11(rt *rapid.T, st *stats.Collector) {
 		},
 		"poolDo": func(rt *rapid.T) {
 			if closed {
-				rt.Skip("closed")
+				return // nothing to do in this state (a no-op step; skipping too often makes rapid give up)
 			}
 			if len(live()) >= maxConns {
-				rt.Skip("would block")
+				return // nothing to do in this state (a no-op step; skipping too often makes rapid give up)
 			}
 			kind := rapid.SampledFrom([]string{"OK", "EXC", "CUT", "EXCCUT", "PING"}).Draw(rt, "pooldo-kind")
 			var err error
@@ -409,7 +409,7 @@ func runC11(rt *rapid.T, st *stats.Collector) {
 			// Many acquire/release cycles (handle objects are allocated in batches per connection);
 			// the stale handles stay in the list and may be released again later.
 			if closed || len(live()) >= maxConns || rapid.IntRange(0, 2).Draw(rt, "really-churn") > 0 {
-				rt.Skip("not now")
+				return // nothing to do in this state (a no-op step; skipping too often makes rapid give up)
 			}
 			n := rapid.SampledFrom([]int{63, 64, 65, 66, 130}).Draw(rt, "churn")
 			for i := 0; i < n; i++ {
@@ -425,7 +425,7 @@ func runC11(rt *rapid.T, st *stats.Collector) {
 		},
 		"burst": func(rt *rapid.T) {
 			if closed {
-				rt.Skip("closed")
+				return // nothing to do in this state (a no-op step; skipping too often makes rapid give up)
 			}
 			n := rapid.IntRange(2, 6).Draw(rt, "burst")
 			var wg sync.WaitGroup
@@ -451,7 +451,7 @@ func runC11(rt *rapid.T, st *stats.Collector) {
 		},
 		"close": func(rt *rapid.T) {
 			if closed || rapid.IntRange(0, 5).Draw(rt, "really-close") > 0 {
-				rt.Skip("not now")
+				return // nothing to do in this state (a no-op step; skipping too often makes rapid give up)
 			}
 			closed = true
 			note("close")
